@@ -228,7 +228,7 @@ def whole_transformers(tier_name):
                 n = sorted(bad)[0]
                 d = os.path.join(ROOT, "replays", "C13")
                 os.makedirs(d, exist_ok=True)
-                path = os.path.join(d, "whole_%s_%s.py" % (name.replace("-", "_"), "include" if include else "exclude"))
+                path = os.path.join(d, "whole_%s_%s.py" % (name.replace("-", "_").replace("#", "_"), "include" if include else "exclude"))
                 with open(path, "w") as f:
                     f.write("import sys\nsys.path.insert(0, %r)\nfrom harness import c13w\nc13w.warmup()\nfc_lines = [%d]\n"
                             "out, lines, exc = None, None, None\ntry:\n    out, lines = c13w._run(%r, %s, %s)\nexcept Exception as e:\n    exc = '%%s: %%s' %% (type(e).__name__, e)\n"
@@ -237,6 +237,14 @@ def whole_transformers(tier_name):
             else:
                 rec["verdict"] = "discharged"
             recs.append(rec)
+    for name in c13w.NO_PATTERN_SOURCES:
+        v = c13w.no_pattern_verdict(name)
+        rec = {"name": "whole:%s:no-patterns" % name, "engine": "concrete-pipeline", "evaluations": 1, "distinct_nontrivial": 1}
+        if v:
+            rec.update(verdict="violation", detail=v)
+        else:
+            rec["verdict"] = "discharged"
+        recs.append(rec)
     return recs
 
 
